@@ -98,7 +98,7 @@ def run_case(spec):
         if got_q != want_q:
             r.fail("C14/query", "sent %r recovered %r (query string %r)" % (want_q, got_q, env["QUERY_STRING"][:120]))
     if not r.failures:
-        cgi = [x.replace("-", "_").upper() for x, _v in hdrs]
+        cgi = [str(x).replace("-", "_").upper() for x in got["headers"].keys()]     # every header name on the wire
         for n, v in hdrs:
             gv = got["headers"].get(n.lower())
             key = n.replace("-", "_").upper()
